@@ -37,9 +37,17 @@ def scratch_copy(repo="/repo"):
     return d
 
 
-def run_one(patch, prop, expect=None, keep=False, scope="quick"):
+SCOPES = {}     # patch path -> extraction scope, from the side file <patch>.json {"scope": "full"} (default: quick)
+
+
+def run_one(patch, prop, expect=None, keep=False, scope=None):
     """Returns dict(result=detected|missed|nocompile|patchfail, rules=[..])."""
     t0 = time.time()
+    if scope is None:
+        scope = SCOPES.get(os.path.abspath(patch))
+        if scope is None:
+            side = os.path.abspath(patch)[:-6] + ".json"
+            scope = json.load(open(side)).get("scope", "quick") if patch.endswith(".patch") and os.path.exists(side) else "quick"
     d = scratch_copy()
     try:
         r = subprocess.run(["patch", "-p1", "-s", "-i", os.path.abspath(patch)], cwd=d, capture_output=True, text=True)
@@ -89,6 +97,8 @@ def collect(dirpath):
                 meta = p[:-6] + ".json"
                 if os.path.exists(meta):
                     expect = json.load(open(meta)).get("expect")
+                    if json.load(open(meta)).get("scope"):
+                        SCOPES[os.path.abspath(p)] = json.load(open(meta))["scope"]
                 items.append((p, prop, expect))
             elif f == "patch.diff":
                 meta = os.path.join(root, "meta.json")
